@@ -9,3 +9,4 @@ for p in "$@"; do
   echo "== $p: $out"
 done
 git -C /repo checkout -- .
+(cd /verif && python3 translator/translate.py /repo coq/Gen >/dev/null)
